@@ -77,7 +77,7 @@ def interp_level(ctx: Ctx):
         doms = {}
         for v in names:
             w = rng.choice([1.0, 2.0, 0.5, 2.0 ** -14, 2.0 ** -10, 2.0 ** 10, 2.0 ** 14])        # inputs of very different scale side by side
-            lo = rng.choice([-1.0, 0.0, 2.0]) * w
+            lo = rng.choice([-1.0, 0.0, 2.0, 2.0 ** 20, -2.0 ** 20]) * w      # also domains a million widths away from the origin (still exact in floating point)
             doms[v] = (lo, lo + w)
         grids = {}
         for v in names:
